@@ -494,7 +494,24 @@ func GenC13(seed uint64, tier string) *Plan {
 					cand = append(cand, d)
 				}
 			}
-			if len(cand) > 0 {
+			if (kind == "caldav" || kind == "carddav") && r.Chance(0.5) {
+				// composed: a rule of the list planted somewhere else, the rest of
+				// the document varied around it (davcompose.go)
+				pool := []string{p.obj, p.obj, p.missingObj, strings.Replace(p.obj, "0.", "1.", 1), p.coll}
+				var name, body string
+				if kind == "caldav" {
+					name, body = composeCalDAV(r, pool)
+				} else {
+					name, body = composeCardDAV(r, pool)
+				}
+				st = &Step{DelayNS: 1000, Method: "REPORT", Target: p.coll, Body: []byte(body), DocEnd: len(body), Kind: "malformed", Malformed: "doc:" + name}
+				st.set("Content-Type", rt.Pick(r, []string{"application/xml", "text/xml", "application/xml; charset=utf-8"}))
+				if r.Chance(0.8) {
+					st.set("Depth", rt.Pick(r, []string{"1", "1", "0"}))
+				}
+				st.Chunk = rt.Pick(r, []int{0, 1, 7})
+				st.Chunked = r.Chance(0.3)
+			} else if len(cand) > 0 {
 				d := rt.Pick(r, cand)
 				st = &Step{DelayNS: 1000, Method: d.Method, Target: p.level(d.Level), Body: []byte(d.Body), DocEnd: len(d.Body), Kind: "malformed", Malformed: "doc:" + d.Name}
 				if kind == "webdav" {
